@@ -58,8 +58,15 @@ reader:
 			if has {
 				serr := r.Slurp(exceeded.Size)
 				if serr != nil {
-					return serr
+					err = serr
 				}
+			}
+
+			// NOTE: the copy-in stream is only ended by a CopyDone message, a
+			// connection which ends in the middle of the stream is not reported
+			// as the end of the stream.
+			if err == io.EOF {
+				return io.ErrUnexpectedEOF
 			}
 
 			return err
